@@ -116,6 +116,9 @@ func newVerifier(P *Program) *Verifier {
 func (v *Verifier) assumeNote(s string) { v.assumed[s] = true }
 
 func (v *Verifier) addOb(name, kind, clause string, st *State, goal *Term, cover bool) {
+	if os.Getenv("GOVC_DEBUG") == "6" && kind == "post" {
+		fmt.Fprintf(os.Stderr, "addOb %s goal=%s\n", name, truncate(goal.String(), 600))
+	}
 	ob, ok := v.obls[name]
 	if !ok {
 		ob = &Obligation{Name: name, Kind: kind, Clause: clause, Cover: cover, Fn: v.top}
